@@ -349,3 +349,22 @@ def validate(wd, raw_files, tag="nodetrace", timeout=1800):
         diffs.append({"line": ln, "event": m.group(2), "what": fields, "instance": lines[start], "context": lines[max(start, ln - 12):ln]})
     return {"lines": len(lines), "diffs": diffs, "classes": classes, "tlc": r,
             "instances": sum(1 for x in lines if x["ev"] == "reset")}
+
+
+REPO_TESTS = "TestHopCountLimit|TestLotsOfPings|TestDuplicateNodeDetection|TestAllowedPeers|TestFirewalling|TestNetwork"
+
+
+def repo_test_traces(wd, timeout=1200):
+    """Runs a selection of the repository's own pkg/netceptor tests with the hooks on and returns the trace file.
+    (These are the meshes the pinned suite builds; their executions are validated like our own.)"""
+    path = os.path.join(wd, "repo_tests_hooks.ndjson")
+    if os.path.exists(path):
+        os.remove(path)
+    env = vlib.go_env()
+    env["VERIF_TRACE"] = path
+    p = vlib.run(["go", "test", "-tags", "verif", "-vet=off", "-count=1", "-run", REPO_TESTS, "./pkg/netceptor/"],
+                 cwd=vlib.REPO, env=env, timeout=timeout, check=False)
+    if p.returncode != 0 or not os.path.exists(path):
+        tail = "\n".join(l for l in (p.stdout or "").splitlines() if l.startswith(("---", "FAIL", "ok", "panic")))[-1500:]
+        raise vlib.Inconclusive("the repository's own netceptor tests did not pass with hooks on:\n" + tail)
+    return path
